@@ -1,9 +1,9 @@
 #!/bin/bash
-# usage: mutrun.sh <file-rel> <sed-expr> <contract-mod> [filter]   (dev helper; scratch copy under /tmp)
-set -e
+# usage: mutrun.sh <file-rel> <sed-expr> <prop> [filter]   (dev helper; scratch copy under /tmp)
 D=$(mktemp -d /tmp/clem_mut.XXXX)
 rsync -a --exclude .git --exclude logs --exclude '.logs' --exclude '.data' --exclude tests --exclude docs --exclude frontend /repo/clematis /repo/configs $D/
 sed -i "$2" $D/$1
-diff <(cat /repo/$1) $D/$1 | head -5 || true
-cd /verif && VERIF_REPO=$D python3-vt dev.py $3 $4 2>&1 | grep -v "OK " | tail -${TAILN:-12}
+diff <(cat /repo/$1) $D/$1 | head -6
+cd /verif && VERIF_REPO=$D ./check $3 --filter "$4" --no-evidence 2>&1 | grep -v "^\[" | tail -${TAILN:-8}
+echo "exit=$?"
 rm -rf $D
